@@ -22,6 +22,7 @@ def OPT(t): return ("option", t)
 def RES(t): return ("result", t)          # a computation that may raise: rendered as option, bound monadically
 def LIST(t): return ("list", t)
 def TUP(*ts): return ("tuple",) + tuple(ts)
+def DICT(k, v): return ("dict", k, v)     # a Python dict in insertion order: an association list updated with PyLib.dict_set (keys are naturals)
 
 
 def coqty(t) -> str:
@@ -29,6 +30,7 @@ def coqty(t) -> str:
         if t[0] in ("option", "result"): return f"(option {coqty(t[1])})"
         if t[0] == "list": return f"(list {coqty(t[1])})"
         if t[0] == "tuple": return "(" + " * ".join(coqty(x) for x in t[1:]) + ")"
+        if t[0] == "dict": return f"(list ({coqty(t[1])} * {coqty(t[2])}))"
     return {"intlit": "nat"}.get(t, t)
 
 
@@ -100,11 +102,26 @@ class Translator:
         # every python parameter must be accounted for (a new parameter changes the meaning)
         pyparams = [a.arg for a in fn.args.args if a.arg not in spec.skip_params]
         declared = [p for p, _, _ in spec.params if "." not in p and not p.endswith("!")]
+        if spec.attrs.get("extract_assign"): pyparams = declared
         if pyparams != declared:
             raise Unsupported(f"{spec.func}: parameters {pyparams} != expected {declared}")
-        if fn.args.vararg or fn.args.kwarg or fn.args.kwonlyargs:
+        if (fn.args.vararg or fn.args.kwarg or fn.args.kwonlyargs) and not spec.attrs.get("extract_assign"):
             raise Unsupported("varargs")
         self.owned = owned
+        if spec.attrs.get("extract_assign"):
+            # only ONE assignment of the function is given a meaning: `<target> = <expr>`; locals assigned before it by `name = kwargs.get('name')` are the parameters
+            tgt = spec.attrs["extract_assign"]
+            hits = [st for st in fn.body if isinstance(st, ast.Assign) and len(st.targets) == 1 and ast.unparse(st.targets[0]) == tgt]
+            if len(hits) != 1: raise Unsupported(f"{spec.func}: expected exactly one assignment to {tgt}")
+            for st in fn.body[:fn.body.index(hits[0])]:
+                ok = isinstance(st, ast.Expr) and isinstance(st.value, ast.Constant) or (
+                    isinstance(st, ast.Assign) and len(st.targets) == 1 and isinstance(st.targets[0], ast.Name)
+                    and ast.unparse(st.value) == f"kwargs.get('{st.targets[0].id}')" and st.targets[0].id in env)
+                if not ok: raise Unsupported(f"{spec.func}: unexpected statement before {tgt}: {ast.unparse(st)[:50]}")
+            t, ty = self.tr(hits[0].value, env)
+            if not self.compatible(ty, spec.ret): raise Unsupported(f"{spec.func}: {tgt} has type {ty}, expected {spec.ret}")
+            ps = " ".join(f"({cq} : {coqty(tt)})" for _, cq, tt in spec.params)
+            return f"Definition {spec.out} {ps} : {coqty(spec.ret)} :=\n  {t}."
         body, ty = self.tr_body(list(fn.body), env)
         rty = RES(spec.ret) if spec.fallible else spec.ret
         if not self.compatible(ty, rty):
@@ -158,7 +175,9 @@ class Translator:
             if isinstance(n.value, int) and n.value >= 0: return (str(n.value), INTLIT)
             raise Unsupported(f"const {n.value!r}")
         if isinstance(n, ast.List) and not n.elts:
-            return ("[]", LIST(None))
+            return ("[]", ("fresh",) + LIST(None))            # a list created here is owned by the function: mutating it is not a mutation of a caller's list
+        if isinstance(n, ast.Dict) and not n.keys:
+            return ("[]", DICT(None, None))
         if isinstance(n, ast.UnaryOp) and isinstance(n.op, ast.Not):
             t, ty = self.tr(n.operand, env); self.need(ty, BOOL); return (f"(negb {t})", BOOL)
         if isinstance(n, ast.UnaryOp) and isinstance(n.op, ast.USub):
@@ -235,7 +254,8 @@ class Translator:
             return self.tr_listcomp(n, env)
         if isinstance(n, ast.Tuple):
             parts = [self.tr(e, env) for e in n.elts]
-            return ("(" + ", ".join(p for p, _ in parts) + ")", TUP(*[t for _, t in parts]))
+            unfresh = lambda t: t[1:] if isinstance(t, tuple) and t and t[0] == "fresh" else t
+            return ("(" + ", ".join(p for p, _ in parts) + ")", TUP(*[unfresh(t) for _, t in parts]))
         if isinstance(n, ast.Call):
             return self.tr_call(n, env)
         raise Unsupported(f"expr {type(n).__name__}: {ast.unparse(n)[:60]}")
@@ -301,6 +321,18 @@ class Translator:
         raise Unsupported(f"subscript {ast.unparse(n)}")
 
     def tr_listcomp(self, n, env):
+        if len(n.generators) == 2 and not any(g.ifs or g.is_async for g in n.generators) and all(isinstance(g.target, ast.Name) for g in n.generators):
+            # [E for v in L for item in M(v)]  ->  flat_map (fun v => map (fun item => E) M(v)) L
+            g1, g2 = n.generators
+            L, tL = self.tr(g1.iter, env)
+            if isinstance(tL, tuple) and tL and tL[0] == "fresh": tL = tL[1:]
+            if not (isinstance(tL, tuple) and tL[0] == "list"): raise Unsupported("comprehension over non-list")
+            env1 = dict(env); env1[g1.target.id] = (g1.target.id, tL[1])
+            M, tM = self.tr(g2.iter, env1)
+            if not (isinstance(tM, tuple) and tM[0] == "list"): raise Unsupported("inner comprehension over non-list")
+            env2 = dict(env1); env2[g2.target.id] = (g2.target.id, tM[1])
+            body, tb = self.tr(n.elt, env2)
+            return (f"(flat_map (fun {g1.target.id} => map (fun {g2.target.id} => {body}) {M}) {L})", LIST(tb))
         if len(n.generators) != 1 or n.generators[0].ifs or n.generators[0].is_async:
             raise Unsupported("comprehension shape")
         g = n.generators[0]
@@ -361,6 +393,12 @@ class Translator:
         if f == "range" and not n.keywords and (len(n.args) == 1 or (len(n.args) == 2 and ast.unparse(n.args[0]) == "0")):
             nn, tn = self.tr(n.args[-1], env); self.need(tn, NAT)
             return (f"(seq 0 {nn})", LIST(NAT))
+        if f in sp.attrs.get("calls", {}) and f not in ("len",):
+            return sp.attrs["calls"][f](lambda k: self.tr(n.args[k], env))
+        if f == "sum" and len(n.args) == 1 and not n.keywords:
+            v, tv = self.tr(n.args[0], env)
+            if tv in (LIST(NAT), LIST(INTLIT)): return (f"(list_sum {v})", NAT)
+            raise Unsupported("sum of non-nat list")
         if f == "len" and len(n.args) == 1:
             v, tv = self.tr(n.args[0], env)
             if not (isinstance(tv, tuple) and tv[0] == "list"): raise Unsupported("len of non-list")
@@ -520,11 +558,16 @@ class Translator:
                 elif meth == "extend" and len(st.value.args) == 1:
                     o, to = self.tr(st.value.args[0], env)
                     if isinstance(to, tuple) and to[0] == "fresh": to = to[1:]
+                    if isinstance(lty, tuple) and lty[0] == "list" and lty[1] is None and isinstance(to, tuple) and to[0] == "list":
+                        lty = to; ty = (("fresh",) + to) if fresh else to           # the first extend fixes the element type of a list created empty
                     self.need(to, lty)
                     new = f"({cur} ++ {o})"
                 elif meth == "append" and len(st.value.args) == 1:
                     o, to = self.tr(st.value.args[0], env)
                     if to == INTLIT and lty[1] == F: o = self.flit(o); to = F
+                    if isinstance(to, tuple) and to and to[0] == "fresh": to = to[1:]
+                    if lty[1] is None:
+                        lty = LIST(to); ty = (("fresh",) + lty) if fresh else lty
                     self.need(to, lty[1])
                     new = f"({cur} ++ [{o}])"
                 else:
@@ -605,9 +648,97 @@ class Translator:
             env2 = dict(env); env2[st.target.id] = (v, BOOL)
             b, tb = self.tr_body(rest, env2)
             return (f"let {v} := orb {cur} {t} in\n  {b}", tb)
+        if isinstance(st, ast.AugAssign) and isinstance(st.op, ast.Add) and isinstance(st.target, ast.Name) and st.target.id in env \
+                and env[st.target.id][1] in (NAT, INTLIT):
+            t, ty = self.tr(st.value, env); self.need(ty, NAT)
+            v = self.gensym(st.target.id)
+            env2 = dict(env); env2[st.target.id] = (v, NAT)
+            b, tb = self.tr_body(rest, env2)
+            return (f"let {v} := ({env[st.target.id][0]} + {t}) in\n  {b}", tb)
+        if isinstance(st, ast.Assign) and len(st.targets) == 1 and isinstance(st.targets[0], ast.Subscript) and isinstance(st.targets[0].value, ast.Name) \
+                and st.targets[0].value.id in env and isinstance(env[st.targets[0].value.id][1], tuple) and env[st.targets[0].value.id][1][0] == "dict":
+            d = st.targets[0].value.id
+            cur, dty = env[d]
+            k, tk = self.tr(st.targets[0].slice, env); self.need(tk, NAT)
+            val, tv = self.tr(st.value, env)
+            nv = self.gensym(d)
+            if isinstance(tv, tuple) and tv[0] == "result":
+                if not sp.fallible: raise Unsupported("failing computation in total function")
+                x_ = self.gensym("item")
+                env2 = dict(env); env2[d] = (nv, DICT(NAT, tv[1]))
+                b, tb = self.tr_body(rest, env2)
+                return (f"match {val} with None => None | Some {x_} =>\n  let {nv} := (dict_set {k} {x_} {cur}) in\n  {b} end", tb)
+            env2 = dict(env); env2[d] = (nv, DICT(NAT, tv))
+            b, tb = self.tr_body(rest, env2)
+            return (f"let {nv} := (dict_set {k} {val} {cur}) in\n  {b}", tb)
+        if isinstance(st, ast.For) and not st.orelse:
+            return self.tr_for(st, rest, env)
         if isinstance(st, ast.If):
             return self.tr_if(st, rest, env)
         raise Unsupported(f"stmt {ast.unparse(st)[:80]}")
+
+    def tr_for(self, st, rest, env):
+        """`for x in L: <body that only rebinds outer names>`  ->  a fold over L whose state is the tuple of the rebound names"""
+        sp = self.spec
+        it, tit = self.tr(st.iter, env)
+        if isinstance(tit, tuple) and tit and tit[0] == "fresh": tit = tit[1:]
+        if not (isinstance(tit, tuple) and tit[0] == "list"): raise Unsupported("for over non-list")
+        if not isinstance(st.target, ast.Name): raise Unsupported("for target")
+        x = st.target.id
+        state = []
+        for s2 in ast.walk(ast.Module(body=list(st.body), type_ignores=[])):
+            nm = None
+            if isinstance(s2, ast.Assign):
+                for t in s2.targets:
+                    for tt in (t.elts if isinstance(t, (ast.Tuple, ast.List)) else [t]):
+                        if isinstance(tt, ast.Name) and tt.id in env and tt.id not in state: state.append(tt.id)
+                        if isinstance(tt, ast.Subscript) and isinstance(tt.value, ast.Name) and tt.value.id in env and tt.value.id not in state: state.append(tt.value.id)
+            elif isinstance(s2, ast.AugAssign) and isinstance(s2.target, ast.Name) and s2.target.id in env: nm = s2.target.id
+            elif isinstance(s2, ast.Expr) and isinstance(s2.value, ast.Call) and isinstance(s2.value.func, ast.Attribute) \
+                    and s2.value.func.attr in ("append", "extend") and isinstance(s2.value.func.value, ast.Name) and s2.value.func.value.id in env:
+                nm = s2.value.func.value.id
+            if nm is not None and nm not in state: state.append(nm)
+        state = [n for n in state if n != x]
+        if not state: raise Unsupported("for loop without effect on outer names")
+        svars = [self.gensym(n) for n in state]
+        env_in = dict(env); env_in[x] = (x if x not in env else self.gensym(x), tit[1])
+        for n, v in zip(state, svars): env_in[n] = (v, env[n][1])
+        ret = ast.Return(value=ast.Tuple(elts=[ast.Name(id=n, ctx=ast.Load()) for n in state], ctx=ast.Load()) if len(state) > 1 else ast.Name(id=state[0], ctx=ast.Load()))
+        saved = (sp.state, sp.fallible, sp.ret, sp.attrs.get("return_states"))
+        sp.attrs.pop("return_states", None)
+        failing = False
+        try:
+            sp.state, sp.fallible = None, False
+            try:
+                body, tb = self.tr_body(list(st.body) + [ret], env_in)
+            except Unsupported as e:
+                if not (saved[1] and ("failing computation" in str(e) or "in total function" in str(e))): raise
+                failing = True
+                sp.fallible = True; sp.ret = None
+                body, tb = self.tr_body(list(st.body) + [ret], env_in)
+                if not (isinstance(tb, tuple) and tb[0] == "result"): raise Unsupported("for: failing body type")
+                tb = tb[1]
+        finally:
+            sp.state, sp.fallible, sp.ret = saved[0], saved[1], saved[2]
+            if saved[3] is not None: sp.attrs["return_states"] = saved[3]
+        tys = list(tb[1:]) if (isinstance(tb, tuple) and tb[0] == "tuple" and len(state) > 1) else [tb]
+        was_fresh = [isinstance(env[n][1], tuple) and env[n][1] and env[n][1][0] == "fresh" for n in state]
+        tys = [t[1:] if isinstance(t, tuple) and t and t[0] == "fresh" else t for t in tys]
+        tys = [(("fresh",) + t) if (wf and isinstance(t, tuple) and t[0] == "list") else t for t, wf in zip(tys, was_fresh)]
+        pat = "'(" + ", ".join(svars) + ")" if len(state) > 1 else svars[0]
+        init = "(" + ", ".join(env[n][0] for n in state) + ")" if len(state) > 1 else env[state[0]][0]
+        outs = [self.gensym(n) for n in state]
+        opat = "'(" + ", ".join(outs) + ")" if len(state) > 1 else outs[0]
+        env2 = dict(env)
+        for n, v, t in zip(state, outs, tys): env2[n] = (v, NAT if t == INTLIT else t)
+        b, tb2 = self.tr_body(rest, env2)
+        xv = env_in[x][0]
+        if not failing:
+            fold = f"(fold_left (fun st_ {xv} => let {pat} := st_ in\n    {body}) {it} {init})"
+            return (f"let {opat} := {fold} in\n  {b}", tb2)
+        fold = (f"(fold_left (fun acc_ {xv} => match acc_ with None => None | Some st_ => let {pat} := st_ in\n    {body} end) {it} (Some {init}))")
+        some_pat = "(" + ", ".join(outs) + ")" if len(state) > 1 else outs[0]
+        return (f"match {fold} with None => None | Some {some_pat} =>\n  {b} end", tb2)
 
     def tr_if(self, st, rest, env):
         sp = self.spec
@@ -672,6 +803,8 @@ class Translator:
             elif isinstance(s2, ast.AugAssign) and isinstance(s2.target, ast.Name) and s2.target.id in env: assigned.append(s2.target.id)
             elif isinstance(s2, ast.Assign) and len(s2.targets) == 1 and isinstance(s2.targets[0], (ast.Name, ast.Tuple)): pass   # new locals inside
             elif isinstance(s2, ast.Expr) and isinstance(s2.value, ast.Call) and ast.unparse(s2.value.func) == "print": pass
+            elif isinstance(s2, ast.Expr) and isinstance(s2.value, ast.Call) and isinstance(s2.value.func, ast.Attribute) and s2.value.func.attr in ("append", "extend") \
+                    and isinstance(s2.value.func.value, ast.Name) and s2.value.func.value.id in env: assigned.append(s2.value.func.value.id)
             else: raise Unsupported(f"if body stmt {ast.unparse(s2)[:60]}")
         assigned = list(dict.fromkeys(assigned))
         if len(assigned) != 1: raise Unsupported("if body must rebind exactly one outer name")
